@@ -24,7 +24,11 @@ func getEnrichedPackage(logger *console.Logger, packagePath string, pkg PackageD
 	aliases := make(map[label.TargetLabel]*model.Alias)
 	absolutePackagePath := config.GetPathAbsoluteToWorkspaceRoot(packagePath)
 
-	for _, target := range pkg.Targets {
+	for index, target := range pkg.Targets {
+		if target == nil {
+			// e.g. `"targets": [null]` in JSON or `- ~` in YAML
+			return nil, fmt.Errorf("target entry %d is empty (package file %s)", index+1, pkg.SourceFilePath)
+		}
 		var deps []label.TargetLabel
 		// parse labels
 		for _, dep := range target.Dependencies {
@@ -108,7 +112,10 @@ func getEnrichedPackage(logger *console.Logger, packagePath string, pkg PackageD
 		}
 	}
 
-	for _, alias := range pkg.Aliases {
+	for index, alias := range pkg.Aliases {
+		if alias == nil {
+			return nil, fmt.Errorf("alias entry %d is empty (package file %s)", index+1, pkg.SourceFilePath)
+		}
 		actualLabel, err := label.ParseTargetLabel(packagePath, alias.Actual)
 		if err != nil {
 			return nil, err
